@@ -22,11 +22,11 @@ m = {
     "version": 1,
     "setup_cmd": "./check --setup",
     "hooks": {
-        "guard": "none: no source hooks in /repo (all seams are existing interfaces: storage.Store, afero.Fs, std time under testing/synctest, ksuid.SetRand)",
-        "enable": "checks build /verif/sim (module verifsim, go1.26.8, replace github.com/oneconcern/datamon => /repo) against /repo's current working tree; nothing to enable",
+        "guard": "Go build tag `verif` (files pkg/cafs/simyield_verif.go vs pkg/cafs/simyield.go)",
+        "enable": "checks build /verif/sim (module verifsim, go1.26.8, replace github.com/oneconcern/datamon => /repo) against /repo's current working tree with `-tags verif`: pkg/cafs then calls the harness at two in-memory yield points of its reader (cafs.SimYield) and its pin / cache / prefetch latches are a channel-based mutex that testing/synctest can see through. With the tag off simYield is an empty function and simLock is an alias of sync.Mutex. All other seams are existing interfaces (storage.Store, afero.Fs, std time under testing/synctest, ksuid.SetRand)",
         "baseline_off_cmd": "cd /repo && GOFLAGS=-mod=mod go test -json -vet=off -count=1 -timeout 25m ./...",
-        "source_commits": [],
-        "add_only": True,
+        "source_commits": ["a8f0092"],
+        "add_only": False,
     },
     "engines": [{"name": "simkit", "path": "sim/", "serves_properties": sorted(PLAN),
                  "kind_free_text": "deterministic simulator: real datamon packages on goroutines inside a testing/synctest bubble; every storage.Store / afero call parks; a seeded tape picks which call lands next, its latency, and the fault (error, lost ack, crash before/after, torn write, stall, bit rot); replay files = recorded tapes; delta-debugging shrinker"}],
